@@ -1,20 +1,16 @@
 #!/usr/bin/env python3
-"""mkharmless.py: copies the behaviour-preserving changes (written by sub-agents) from /root/mut/outrf* into
-/verif/harmless/<id>/ and tabulates the recorded check runs (tools/tryrefactor.sh; latest run per change and check)."""
+"""mkharmless.py: tabulates the recorded check runs (tools/tryrefactor.sh; latest run per change and check; logs in
+/verif/harmless/runs/ and /verif/.cache/rf_round*.log) of the behaviour-preserving changes in /verif/harmless/<id>/."""
 import glob, os, re, shutil
 runs = {}
-for log in sorted(glob.glob('/verif/.cache/rf_round*.log'), key=os.path.getmtime):
+for log in sorted(glob.glob('/verif/harmless/runs/*.log')) + sorted(glob.glob('/verif/.cache/rf_round*.log'), key=os.path.getmtime):
     for line in open(log):
         m = re.match(r'^(RF[A-Z]-\d+) (C\d+) (\S+) rc=(\d+) (\d+)s ?(.*)$', line.strip())
         if m:
             runs[(m.group(1), m.group(2))] = (m.group(3), m.group(5), m.group(6)[:160])
 rows = []
-for src in sorted(glob.glob('/root/mut/outrf*/RF*')):
+for src in sorted(glob.glob('/verif/harmless/RF*')):
     name = os.path.basename(src)
-    dst = f'/verif/harmless/{name}'
-    os.makedirs(dst, exist_ok=True)
-    shutil.copy(f'{src}/patch.diff', dst)
-    shutil.copy(f'{src}/notes.txt', dst)
     desc = open(f'{src}/notes.txt').read().strip().split('\n')[0][:200]
     rs = sorted((c, v) for (n, c), v in runs.items() if n == name)
     ok = [c for c, v in rs if v[0] == 'ok']
